@@ -126,6 +126,9 @@ type MultisetCombinationIterator struct {
 
 	//A buffer slice to return the value in as we iterate using FreqValue
 	value []int
+
+	//done is set once the iterator has reported that there are no more multisets.
+	done bool
 }
 
 //MultisetCombinations returns an iterator which iterates over all multisets containing k elements and with a maximum of m[i] elements of type i. Value returns the multiset of k items and FreqValue returns a slice v where v[i] is the number of i in the multiset.
@@ -157,6 +160,17 @@ func (iter MultisetCombinationIterator) FreqValue() []int {
 //Next attempts to advance the iterator to the next multiset, returning true if there is one and false if not.
 //This is an implementation of Algorithm Q from The Art of Computer Programming Volume 4a section 7.2.1.3.
 func (iter *MultisetCombinationIterator) Next() bool {
+	if iter.done {
+		return false
+	}
+	if !iter.next() {
+		iter.done = true
+		return false
+	}
+	return true
+}
+
+func (iter *MultisetCombinationIterator) next() bool {
 	if iter.state == nil {
 		//Initial call
 		iter.value = make([]int, iter.k)
@@ -179,6 +193,11 @@ func (iter *MultisetCombinationIterator) Next() bool {
 		}
 
 		return true
+	}
+
+	if iter.k == 0 || len(iter.m) == 0 {
+		//The empty multiset is the only one and it has been visited.
+		return false
 	}
 
 	//Q4
